@@ -10,12 +10,16 @@ import (
 	"verif/twin/c10a"
 	"verif/twin/c10b"
 	"verif/twin/c10c"
+	"verif/twin/c10d"
+	"verif/twin/c10e"
 )
 
 var c10Specs = []*twinSpec{
 	{Name: "c10a-fanout", Source: c10a.Source, Native: c10a.Main, Determinate: "="},
 	{Name: "c10b-pipeline", Source: c10b.Source, Native: c10b.Main, Determinate: "all"},
 	{Name: "c10c-opsoup", Source: c10c.Source, Native: c10c.Main, Model: true},
+	{Name: "c10d-shared-closures", Source: c10d.Source, Native: c10d.Main, Determinate: "="},
+	{Name: "c10e-timeouts", Source: c10e.Source, Native: c10e.Main, Determinate: "all"},
 }
 
 func init() {
